@@ -100,3 +100,23 @@ package beacon
 //@   opt noalloc
 //@   ensures ok == ch_known_at(gvver, root, slot)
 //@   ensures ok ==> entry == ch_entry_at(gvver, root, slot) && entry != nil
+
+// BEGIN C18 generated (tools/gen_c18.py in /verif)
+// cancelled: a context cancelled before the call makes it fail; surfaced: a cancellation observed by a poll
+// during the call makes it fail; polled: success after a poll means the context was not cancelled at entry.
+
+//@ func (s *StandardUpgradeableBeaconState) UpgradeMaybe(ctx, spec, epc) err
+//@   property C18
+//@   panics off
+//@   requires ctx != nil
+//@   opt weakcalls
+//@   opt inline=closures
+//@   assigns anything, ghost(ctx_t), ghost(ctx_seen)
+//@   ensures surfaced: !old(ctx_seen) && ctx_seen ==> err != nil
+//@   ensures polled: err == nil && ctx_t > old(ctx_t) ==> !ctx_cancelled(ctx, old(ctx_t))
+//@   ensures time: ctx_t >= old(ctx_t)
+//@   loop *
+//@     invariant ctx_t >= old(ctx_t) && (old(ctx_seen) || !ctx_seen)
+//@     invariant ctx_t > old(ctx_t) ==> !ctx_cancelled(ctx, old(ctx_t))
+
+// END C18 generated
